@@ -87,7 +87,18 @@ async fn run_case(case: &Case, info: &mut CaseInfo, root: std::path::PathBuf) ->
     w.check_visibility(2, "after the missing ranges were answered").await?;
     let st = w.nodes[2].sync_state().await;
     ensure!(st.need.is_empty() && st.partial_need.is_empty(), "partial-versions-complete-once-answered", "receiver still lists need {:?} partial_need {:?} after holders answered", st.need, st.partial_need);
-    let left = w.nodes[2].count("SELECT (SELECT count(*) FROM __corro_buffered_changes) + (SELECT count(*) FROM __corro_seq_bookkeeping)").await.map_err(infra)?;
+    // the clearing of buffered copies is asynchronous (scheduled by the apply / complete / Empty paths): run the
+    // clear step until nothing is left, the verdict is taken at a ceiling only
+    let t_clear = std::time::Instant::now();
+    let mut left;
+    loop {
+        w.clear(2).await?;
+        left = w.nodes[2].count("SELECT (SELECT count(*) FROM __corro_buffered_changes) + (SELECT count(*) FROM __corro_seq_bookkeeping)").await.map_err(infra)?;
+        if left == 0 || t_clear.elapsed() > std::time::Duration::from_secs(10) {
+            break;
+        }
+        tokio::time::sleep(std::time::Duration::from_millis(50)).await;
+    }
     ensure!(left == 0, "buffered-copies-removed", "receiver keeps {left} buffered rows / seq records after every version was applied or cleared");
     let want = w.reference.tables().map_err(infra)?;
     let got = w.nodes[2].dump_tables().await.map_err(infra)?;
